@@ -719,6 +719,23 @@ impl<'t> Glob<'t> {
     }
 }
 
+// Verification hooks: read-only accessors, compiled only with `--cfg olson_sean_k_wax_verif`.
+#[cfg(olson_sean_k_wax_verif)]
+impl<'t> Glob<'t> {
+    /// Text of the compiled regular expression of this glob.
+    pub fn verif_program_pattern(&self) -> &str {
+        self.program.as_str()
+    }
+}
+
+#[cfg(olson_sean_k_wax_verif)]
+impl<'t> Any<'t> {
+    /// Text of the compiled regular expression of this combinator.
+    pub fn verif_program_pattern(&self) -> &str {
+        self.program.as_str()
+    }
+}
+
 impl Display for Glob<'_> {
     fn fmt(&self, f: &mut Formatter) -> fmt::Result {
         write!(f, "{}", self.tree.as_ref().expression())
